@@ -68,12 +68,18 @@ func debugDump(c *Ctx, what string) {
 				r.name(), r.pattern(), r.OutKind, r.Op, r.AltOps, r.Identity, r.Drop, r.DropOK, r.OutLen, r.Other, r.Err, strings.Join(args, " "))
 		}
 	case strings.HasPrefix(what, "paths:"):
-		fn := c.findFunc(strings.TrimPrefix(what, "paths:"))
+		name := strings.TrimPrefix(what, "paths:")
+		inl := strings.HasSuffix(name, "+inl")
+		name = strings.TrimSuffix(name, "+inl")
+		fn := c.findFunc(name)
 		if fn == nil {
 			fmt.Println("no such function")
 			return
 		}
 		paths, complete := c.enumPaths(fn, 5000)
+		if inl {
+			paths, complete = c.enumPathsInl(fn, 5000)
+		}
 		fmt.Printf("%d paths complete=%v\n", len(paths), complete)
 		for i, p := range paths {
 			ret := "<no return>"
